@@ -353,9 +353,6 @@ def oracle_static(src, node, quirks):
                 ex_fv.add(b.name)
         body_nodes = fn.body if isinstance(fn.body, list) else [fn.body]
         ex_fv -= outer_iter_names(body_nodes)
-        for b in nested_blocks(fn):
-            if isinstance(b, (ast.FunctionDef, ast.Lambda)) and id(b) not in in_class:
-                ex_fv -= outer_iter_names(b.body if isinstance(b.body, list) else [b.body])
         ex_fv |= enclosing_targets.get(id(fn), set())
         ex_fv |= set(b.name for b in ast.walk(fn) if isinstance(b, ast.ExceptHandler) and b.name)   # except names stay exempt
         declared = declg | decln
